@@ -2,8 +2,8 @@
 Oracle for C03.
 
 case     : `stack=tlcp|dtlcp suite=<hex> auth=0|1 resume=0|1 base=<vers.suite.alpn.resumed>
-            edit=none|flip|setlen|splice|drop|dup|swap|trunc|inject
-            [dir=c2s|s2c rec=<n> off=<n> mask=<hex> inj=<kind> | m=<n> op=<what> (splice)]
+            edit=none|flip|setlen|splice|drop|dup|swap|trunc|cut|inject
+            [dir=c2s|s2c rec=<n> off=<n> mask=<hex> inj=<kind> | m=<n> op=<what> (splice) | mode=hard|soft|half (cut)]
             [rtype= msg= field= orig=]`   (the last group names the edited bytes on the real record)
 observed : `c=<completed|failed(class)|panic> s=<…> stall=0|1 panic=0|1 [cv=<view>] [sv=<view>] [lay=<layout>]`
 
@@ -52,6 +52,9 @@ structure Edit where
   idx : Nat
   mask : Nat
   inj : String
+  /-- cut: `hard` (both directions closed, writes fail), `soft` (both directions closed, writes
+  vanish), `half` (only the edited direction is closed; its writer's writes fail) -/
+  mode : String
   rtype : String
   field : String
   orig : Nat
@@ -120,7 +123,16 @@ def posOf (w : Role) (n : Nat) : List (Role × Record) → Nat → Option Nat
 def queueOf (k : Codes) (e : Edit) (w : Role) (outs : List (Role × Record)) : List Record :=
   let recs := recsOf w outs
   let edited : Bool := (w = Role.client) == e.toServer
-  if e.kind == "trunc" then
+  if e.kind == "cut" then
+    -- the transport is closed right after record `idx - 1` of the edited direction was written
+    let writer : Role := if e.toServer then .client else .server
+    if edited then recs.take e.idx
+    else if e.mode == "half" then recs
+    else if e.idx = 0 then []
+    else match posOf writer (e.idx - 1) outs 0 with
+      | none => recs
+      | some p => recsOf w (outs.take (p + 1))
+  else if e.kind == "trunc" then
     let writer : Role := if e.toServer then .client else .server
     match posOf writer e.idx outs 0 with
     | none => recs
@@ -161,6 +173,10 @@ def strategy (k : Codes) (e : Edit) : Attacker where
       match toC[nC]? with
       | some r => some (Role.client, r)
       | none => none
+  cut := fun outs _ role =>
+    let writer : Role := if e.toServer then .client else .server
+    e.kind == "cut" && (e.idx == 0 || decide ((recsOf writer outs).length ≥ e.idx)) &&
+      (e.mode == "hard" || (e.mode == "half" && decide (role = writer)))
 
 def statusStr : Status → String
   | .running => "failed(eof)"
@@ -206,11 +222,11 @@ def judge (c o : String) : Option Verdict := do
   let kind ← kv ct "edit"
   let e : Edit := {
     kind := kind, toServer := (kv ct "dir") != some "s2c", idx := (kvNat ct "rec").getD 0,
-    mask := if kind == "setlen" then 1 else ((kv ct "mask").bind parseHexNat).getD 0, inj := (kv ct "inj").getD "",
+    mask := if kind == "setlen" then 1 else ((kv ct "mask").bind parseHexNat).getD 0, inj := (kv ct "inj").getD "", mode := (kv ct "mode").getD "",
     rtype := (kv ct "rtype").getD "-", field := (kv ct "field").getD "-",
     orig := ((kv ct "orig").bind parseHexNat).getD 0 }
   let W := world cf
-  let g := Global.run k fl W (strategy k e) 400 (Global.init k W)
+  let g := Global.run k fl W (strategy k e) 400 (Global.init k fl W)
   let cDone := g.c.status == Status.done
   let sDone := g.s.status == Status.done
   -- observation
@@ -235,8 +251,10 @@ def judge (c o : String) : Option Verdict := do
   -- is predicted, the spec is evaluated on every case
   let predicts := !dtls || kind == "none"
   let mboth := if cDone && sDone then "1" else "0"
+  -- the model's image of the consistency check of `handshakeContext` (false under `doneMarkedLast`)
+  let mpanic := if g.c.panics || g.s.panics then "1" else "0"
   let model := if predicts then
-      " ".intercalate ([s!"c={strictStatus cDone oc}", s!"s={strictStatus sDone os}", s!"both={mboth}", s!"stall={ostall}", "panic=0"]
+      " ".intercalate ([s!"c={strictStatus cDone oc}", s!"s={strictStatus sDone os}", s!"both={mboth}", s!"stall={ostall}", s!"panic={mpanic}"]
         ++ extra ++ lay)
     else " ".intercalate ([s!"c={oc}", s!"s={os}", s!"both={oboth}", s!"stall={ostall}", "panic=0"] ++ extra)
   -- spec on the observation
@@ -252,7 +270,7 @@ def judge (c o : String) : Option Verdict := do
     if (kind == "flip" || kind == "setlen") && same == 1 && !startsWithStr fieldTok0 "record." &&
         !startsWithStr fieldTok0 "beyond" && fieldTok0 != "-" && msgTok0 != "HelloVerifyRequest" &&
         !(dtls && msgTok0 == "ClientHello") then
-      some s!"{msgTok0}:{fieldBase fieldTok0}"
+      some s!"{msgTok0}:{fieldBase fieldTok0} was altered"
     -- a splice inside a handshake message (insertion / deletion / reordering with every length
     -- fixed up) of a message that was never retransmitted; the cookie exchange of the datagram
     -- stack (HelloVerifyRequest, and the ClientHello without cookie that a HelloVerifyRequest
@@ -260,7 +278,16 @@ def judge (c o : String) : Option Verdict := do
     else if kind == "splice" && same == 1 && (kv ct "rtype") == some "hs" && !startsWithStr fieldTok0 "beyond" &&
         fieldTok0 != "-" && msgTok0 != "never" && msgTok0 != "HelloVerifyRequest" &&
         !(dtls && msgTok0 == "ClientHello" && (kv ct "cookie") == some "0" && (kvNat ot "hvr").getD 0 ≥ 1) then
-      some s!"{msgTok0}:{fieldTok0}"
+      some s!"{msgTok0}:{fieldTok0} was altered"
+    -- a handshake / ChangeCipherSpec record REMOVED in transit of which the sender never wrote
+    -- another copy: the reader cannot have accepted it, so when both complete the items one side
+    -- accepted are not the items the other sent (cookie prelude of the datagram stack excepted)
+    else if kind == "drop" && same == 1 &&
+        ((kv ct "rtype") == some "hs" || (kv ct "rtype") == some "ccs" ||
+         ((kv ct "rtype") == some "enc" && msgTok0 == "Finished(protected)")) &&
+        msgTok0 != "never" && msgTok0 != "HelloVerifyRequest" &&
+        !(dtls && msgTok0 == "ClientHello" && (kv ct "cookie") == some "0" && (kvNat ot "hvr").getD 0 ≥ 1) then
+      some s!"the {msgTok0} record was removed"
     else none
   let spec := judgeObs (opanic != "0" || oc == "panic" || os == "panic") cv sv (oc == "completed") (os == "completed") base altered
   let exact := mc == oc && ms == os && mstall == ostall
